@@ -37,8 +37,8 @@ def cases(rng, tier):
         out += list(G.enumerate_histories(2, ["foo="]))
         e3 = list(G.enumerate_histories(3, ["fmo"]))
         e3 = [c for c in e3 if c["gen"] == "enum3"]
-        out += rng.sample(e3, 500)
-        nrand = 500
+        out += rng.sample(e3, 300)
+        nrand = 250
     else:
         out += list(G.enumerate_histories(3, ["fmo", "foo="]))
         e4 = [c for c in G.enumerate_histories(4, ["fmo"]) if c["gen"] == "enum4"]
